@@ -3,7 +3,9 @@
 Domain: Application(compress_response=True); handler program of <=8 ops restricted to write / flush
 (awaited or not) / finish([chunk]) / set_status(200|206|204|304) / set_header|add_header|clear_header of
 Content-Type (whitelisted types, text/*, with parameters, upper-case, non-compressible, absent),
-Content-Encoding preset, Vary preset (single / multi-token / two lines), explicit Content-Length
+Content-Encoding preset, Vary preset (single / multi-member / several lines / `*` / already listing
+Accept-Encoding in either case / members that merely contain the words, e.g. X-Accept-Encoding-Profile),
+explicit Content-Length
 (right or wrong); chunks sized around the 1024-byte threshold (1023/1024/1025 exactly, tiny, empty, up
 to 20000); request Accept-Encoding in {absent, gzip, "gzip, deflate", deflate, identity,
 "br;q=1, gzip;q=0.5", x-gzip, GZIP, gzip;q=0, *, *;q=0, "identity, *;q=0", "br, *;q=0.1",
@@ -37,7 +39,7 @@ Finding on the current tree (open, known_findings.d/C29.json + findings_inbox/C2
   bodyless response (304: connection dropped without response; 204: bytes behind the header block).
 With the proposed patch applied to a scratch copy the check is quiet with zero excluded cases.
 
-Sensitivity (quick tier, seed 1, each mutant applied alone to a scratch copy of tornado/web.py; 10 of 11 caught):
+Sensitivity (quick tier, seed 1, each mutant applied alone to a scratch copy of tornado/web.py; 11 of 12 caught):
   transform_first_chunk: Content-Length kept on a non-final first chunk   -> C29.not_well_framed
   transform_chunk: GzipFile.flush() omitted on non-final chunks           -> C29.flush_not_a_sync_point
   transform_first_chunk: Vary overwritten instead of extended             -> C29.vary_lost_program_token
@@ -47,6 +49,11 @@ Sensitivity (quick tier, seed 1, each mutant applied alone to a scratch copy of 
   _compressible_type: always True                                         -> C29.gzip_for_non_compressible_type
   transform_chunk: close() replaced by flush() (no gzip trailer)          -> C29.gzip_body_undecodable
   transform_first_chunk: Vary not set when absent                         -> C29.vary_without_accept_encoding
+  transform_first_chunk: `, Accept-Encoding` appended to an existing Vary only when the words do not OCCUR
+      in it (case-insensitive substring test): `Vary: X-Accept-Encoding-Profile` or `Cookie, X-No-Accept-
+      Encoding` goes out without the member Accept-Encoding                  -> C29.vary_without_accept_encoding
+      (found by independent mutation testing and MISSED while no program-set Vary member merely contained
+      the words; such members are generated now)
   __init__: `"gzip" in AE or "*" in AE` without q-value handling (body gzip-encoded for `*;q=0`,
       `identity, *;q=0`, `deflate, *;q=0.0`)                                -> C29.gzip_without_accept_encoding_gzip
       (found by independent mutation testing and MISSED while no Accept-Encoding value contained `*`)
@@ -118,6 +125,13 @@ CONTENT_TYPES = sorted(WHITELIST) + [
 ]
 
 
+# program-set Vary values; several lines arise from add_header.  Some name a field that merely CONTAINS the
+# words accept-encoding: membership is a comparison of list members, not a substring test.
+VARY_VALUES = ["Cookie", "Accept-Language", "Accept-Language, Cookie", "*", "Accept-Encoding", "accept-encoding",
+               "accept-encoding, X-A", "Cookie, Accept-Encoding", "X-Accept-Encoding-Profile",
+               "Cookie, X-No-Accept-Encoding", "Accept-Encoding-Hint,Cookie"]
+
+
 def weighted(*pairs):
     table = [i for i, (w, _s) in enumerate(pairs) for _ in range(w)]
     return st.sampled_from(table).flatmap(lambda i: pairs[i][1])
@@ -141,8 +155,8 @@ header_op = weighted(
     (6, st.tuples(st.just("set_header"), st.just("Content-Type"), st.sampled_from(CONTENT_TYPES))),
     (1, st.tuples(st.just("clear_header"), st.just("Content-Type"))),
     (2, st.tuples(st.just("set_header"), st.just("Content-Encoding"), st.sampled_from(["identity", "gzip", "br"]))),
-    (2, st.tuples(st.sampled_from(["set_header", "add_header"]), st.just("Vary"),
-                  st.sampled_from(["Accept-Language", "Accept-Language, Cookie", "*", "Accept-Encoding", "accept-encoding, X-A"]))),
+    (4, st.tuples(st.sampled_from(["set_header", "add_header"]), st.just("Vary"),
+                  st.sampled_from(VARY_VALUES))),
     (3, st.tuples(st.just("set_cl"), st.sampled_from([0, 0, 0, 0, 0, 0, 1, -1]))),
 )
 prog_s = st.tuples(
@@ -319,7 +333,11 @@ def run_case(ctx, case):
 
     # ---- Vary
     vary = tokens(r1.get_all("Vary"))
-    ctx.check("accept-encoding" in vary, "C29.vary_without_accept_encoding", dict(info, vary=r1.get_all("Vary")))
+    # member-wise (all Vary lines combined, split on commas, trimmed, case-insensitive); `*` covers everything
+    ctx.check("accept-encoding" in vary or "*" in vary, "C29.vary_without_accept_encoding",
+              dict(info, vary=r1.get_all("Vary")))
+    if any("accept-encoding" in t and t != "accept-encoding" for t in vary):
+        labels.add("vary_member_containing_accept_encoding")
     for t in tokens(exp.headers.get("vary", [])):
         ctx.check(t in vary, "C29.vary_lost_program_token", dict(info, vary=r1.get_all("Vary"), token=t))
     if "vary" in exp.headers:
